@@ -67,7 +67,7 @@ def tasks(tier):
     # guards that are data attributes (properties) of the machine, the model or a listener and fail when they are read
     for engine in ("sync", "async"):
         for prov in ("machine", "model", "listener"):
-            out.append({"kind": "property-guard", "engine": engine, "provider": prov})
+            out.append({"kind": "property-guard", "engine": engine, "provider": prov, "spelling": ["name", "comparison", "boolean"][(len(out)) % 3]})
     if quick:
         # second template (C01's T-guards machine), one fault anywhere, then a follow-up
         for s0 in (1,):
@@ -95,7 +95,7 @@ BOUNDS = {
     "quick": "T-chain template. Scenario A: first call (event fixed per task) with either a raise, or a nested send {go,hop} optionally "
     "followed by a raise, each placed at any callback invocation (validator, guards, the 5 generic action callbacks; first, nested or queued "
     "transition; initial enter callback in the from-construction scenario), then an action-free follow-up call (go). Scenario C: two nested sends {go,hop} from the first event's own callbacks, then a follow-up. Scenario X: a BaseException (cancellation-like) raised at any invocation, then a follow-up. Scenario U: one nested send of an undeclared event name. Scenario B: two "
-    "consecutive calls that may each raise at any invocation, then an action-free call. A second template (C01's T-guards machine) with one fault anywhere and a follow-up. Guards given as names of properties on machine / model / listener whose getter raises one of {RuntimeError, an AttributeError subclass, a KeyError subclass, a StopIteration subclass, TypeError} (sync and async engine). Engines sync rtc (all pre-states, also "
+    "consecutive calls that may each raise at any invocation, then an action-free call. A second template (C01's T-guards machine) with one fault anywhere and a follow-up. Guards given as names of properties on machine / model / listener (used by name, inside a comparison `ready >= one`, or inside a boolean expression, by task) whose getter raises one of {RuntimeError, an AttributeError subclass, a KeyError subclass, a StopIteration subclass, TypeError} (sync and async engine). Engines sync rtc (all pre-states, also "
     "allow_event_without_transition), sync non-rtc (pre-states a, c), all-async (pre-state a; construction).",
     "thorough": "scenario A also on a second template (C01's T-guards machine: final state, three candidates, multi-event, internal, expression guard); two follow-up calls, follow-up events {go,hop,tick}, a listener adding 3 more callbacks per transition, all pre-states on every engine.",
 }
@@ -149,7 +149,9 @@ def run_property_guard(ctx, params):
 
         attrs = {}
         a, b = State(initial=True), State()
-        attrs.update(a=a, b=b, go=a.to(b, cond="ready"), back=b.to(a, unless="blocked"))
+        spelled = params.get("spelling", "name")
+        g_ready, g_blocked = ("ready", "blocked") if spelled == "name" else ("ready >= one", "blocked >= one") if spelled == "comparison" else ("not not ready", "blocked or blocked")
+        attrs.update(a=a, b=b, go=a.to(b, cond=g_ready), back=b.to(a, unless=g_blocked), one=1)
         entered = []
         if is_async:
             async def on_enter_state(self, state):
@@ -213,7 +215,7 @@ def run_property_guard(ctx, params):
         raise
     if armed:
         if got[0] != "exc" or got[1] is not box["exc"]:
-            raise Mismatch(f"guard-exception-swallowed:{tag}", f"reading the guard attribute `{gname}` raised {box['cls'].__mro__[1].__name__}; send('{ev}') "
+            raise Mismatch(f"guard-exception-swallowed:{tag}", f"reading the guard attribute `{gname}` raised {box['cls'].__name__.lstrip('_')}; send('{ev}') "
                            f"{'returned' if got[0] == 'ret' else 'raised TransitionNotAllowed' if got[0] == 'tna' else 'raised ' + repr(got[1])}; state {sm.current_state.id}")
         if sm.current_state.id != start:
             raise Mismatch(f"state-changed-by-failed-guard:{tag}", f"in {sm.current_state.id}")
